@@ -208,7 +208,8 @@ Deterministic(R, cls, lim, off) ==
 (*    "join_window_first"       LIMIT/OFFSET are applied to the join rows  *)
 (*                              in the order the join PRODUCES them        *)
 (*                              (JoinProd); what is left is ordered after  *)
-(*    "join_topk_not_sorted"    with LIMIT (a TopK plan) nothing is ordered *)
+(*    "join_topk_not_sorted"    with LIMIT (a TopK plan) nothing is ordered: *)
+(*                              the window of the PRODUCED rows comes back *)
 (*    "join_duplicate_name_key" ORDER BY y.id reads x.id when x.id is in   *)
 (*                              the select list too (both are called id)   *)
 (*    "join_limit0_returns_one" LIMIT 0 behaves like LIMIT 1               *)
@@ -295,13 +296,14 @@ DevAdmissible(obs, q, devs) ==
     LET keys == LiveKeys(q, devs)
         dirs == Dirs(keys)
         lim == IF "join_limit0_returns_one" \in devs /\ q.lim = 0 THEN 1 ELSE q.lim
-        base == IF "join_window_first" \in devs THEN JoinProd(Tab(q.tab)) ELSE Base(q)
+        winfirst == "join_window_first" \in devs \/ "join_topk_not_sorted" \in devs
+        base == IF winfirst THEN JoinProd(Tab(q.tab)) ELSE Base(q)
         P0 == ProjectionB(base, q, keys, OutSel(q, devs))
         P1 == IF "index_scan_drops_null_keys" \in devs /\ Len(keys) > 0 THEN SelectSeqIdx(P0, LAMBDA i : P0[i].k[1] # N, 1) ELSE P0
         \* join_window_first: the window is cut out of the rows as the join produces them; what is left is ordered
-        P == IF "join_window_first" \in devs THEN Window(P1, lim, q.off) ELSE P1
-        wl == IF "join_window_first" \in devs THEN NoLim ELSE lim
-        wo == IF "join_window_first" \in devs THEN NoLim ELSE q.off
+        P == IF winfirst THEN Window(P1, lim, q.off) ELSE P1
+        wl == IF winfirst THEN NoLim ELSE lim
+        wo == IF winfirst THEN NoLim ELSE q.off
         nulleq == "null_equals_all" \in devs
     IN /\ Applicable(q, devs)
        /\ IF "distinct_window_twice" \in devs
